@@ -78,4 +78,41 @@ theorem toyLaws : FloatLaws toyOps where
   eq_not_lt := by intro x y; cases x <;> cases y <;> decide
   le_def := by intro x y; cases x <;> cases y <;> decide
 
+/-! ### rounding to the result type (`run_addf`, `run_subf`, `run_mulf`) -/
+
+variable {Ty : Type}
+
+/-- What is assumed of the primitives of `_round_to_float_type`, relative to a rounding function
+`rne ty x` = "the binary64 value `x` rounded to the nearest value of `ty`, ties to even, beyond the
+largest finite value to the infinity of the same sign" (IEEE-754 roundTiesToEven, §4.3.1):
+re-packing computes it unless it raises, it raises only where the rounded value is that infinity, and
+a type that is not narrower than binary64 holds every Python float. -/
+structure RoundLaws (R : RoundOps F Ty) (rne : Ty → F → F) : Prop where
+  repack_some : ∀ ty x r, R.narrow ty = true → R.repack ty x = some r → r = rne ty x
+  repack_none : ∀ ty x, R.narrow ty = true → R.repack ty x = none → rne ty x = R.copysignInf x
+  wide : ∀ ty x, R.narrow ty = false → rne ty x = x
+
+/-- a toy instance (non-vacuity): integers as "floats", the narrow type holds −2..2, larger
+magnitudes overflow to ±100 ("infinity") -/
+def toyRound : RoundOps Int Bool where
+  add := fun a b => a + b
+  sub := fun a b => a - b
+  mul := fun a b => a * b
+  narrow := fun t => t
+  repack := fun t x => if t && (x < -2 || 2 < x) then none else some x
+  copysignInf := fun x => if x < 0 then -100 else 100
+
+def toyRne (t : Bool) (x : Int) : Int := if t && (x < -2 || 2 < x) then (if x < 0 then -100 else 100) else x
+
+theorem toyRoundLaws : RoundLaws toyRound toyRne where
+  repack_some := by
+    intro ty x r h1 h2
+    cases ty <;> simp [toyRound, toyRne] at * <;> grind
+  repack_none := by
+    intro ty x h1 h2
+    cases ty <;> simp [toyRound, toyRne] at * <;> grind
+  wide := by
+    intro ty x h
+    cases ty <;> simp [toyRound, toyRne] at *
+
 end Xdsl.ArithFloatLogic
